@@ -41,6 +41,7 @@ const (
 	kEntry
 	kRing
 	kCell
+	kReleaser // a function value that releases the shared mutex when called (`mu.Unlock`, a releaser helper's result)
 )
 
 type coreType struct{ ring, cell, mutex map[string]bool }
@@ -53,6 +54,7 @@ var (
 	funcs     = map[string]*ast.FuncDecl{}
 	globals   = map[string]kind{}
 	called    = map[string]bool{}
+	releasers = map[string]bool{} // functions whose result is a releaser (`return mu.Unlock`)
 	uses      []string
 	stores    []string
 	mutations []string
@@ -174,6 +176,21 @@ func (c *ctx) kind(e ast.Expr) kind {
 		if kx == kRing && x.Sel.Name == "Value" {
 			return kEntry
 		}
+		if kx == kMutex && (x.Sel.Name == "Unlock" || x.Sel.Name == "RUnlock") {
+			return kReleaser
+		}
+		return kOther
+	case *ast.FuncLit:
+		if len(x.Body.List) == 1 {
+			if es, ok := x.Body.List[0].(*ast.ExprStmt); ok {
+				if op, ok := c.mutexOp(es.X); ok && (op == "Unlock" || op == "RUnlock") {
+					return kReleaser
+				}
+				if call, ok := es.X.(*ast.CallExpr); ok && c.kind(call.Fun) == kReleaser {
+					return kReleaser
+				}
+			}
+		}
 		return kOther
 	case *ast.StarExpr:
 		switch c.kind(x.X) {
@@ -241,6 +258,13 @@ func (c *ctx) kind(e ast.Expr) kind {
 }
 
 func resultKind(fd *ast.FuncDecl) kind {
+	name := fd.Name.Name
+	if r := recvType(fd); r != "" {
+		name = r + "." + name
+	}
+	if releasers[name] {
+		return kReleaser
+	}
 	if fd.Type.Results == nil || len(fd.Type.Results.List) == 0 {
 		return kOther
 	}
@@ -315,10 +339,56 @@ func (c *ctx) call(fd *ast.FuncDecl, args []ast.Expr, pos token.Pos) {
 	for _, a := range args {
 		ak = append(ak, c.kind(a))
 	}
-	end := analyzeFunc(fd, c.held, ak, c.entry, c.depth+1, c.record)
-	if end != c.held {
-		c.unknown(fmt.Sprintf("%s returns with the mutex in another mode than it was called with", name), pos)
+	// the callee's effect on the mutex is the caller's: a helper that only locks (and returns the releaser) IS that
+	// lock operation; a leak shows up as an entry point returning with the mutex held
+	c.held = analyzeFunc(fd, c.held, ak, c.entry, c.depth+1, c.record)
+}
+
+// callValue: a function or method of the package passed as a value (e.g. to Ring.Do) runs with the caller's lock state
+func (c *ctx) callValue(e ast.Expr, pk kind) bool {
+	var fd *ast.FuncDecl
+	switch v := e.(type) {
+	case *ast.Ident:
+		fd = funcs[v.Name]
+	case *ast.SelectorExpr:
+		if fd = methodOn(c.kind(v.X), v.Sel.Name); fd == nil {
+			// a method value on some other type of the package: found by its name when that is unambiguous
+			n := 0
+			for key, m := range methods {
+				if strings.HasSuffix(key, "."+v.Sel.Name) {
+					fd, n = m, n+1
+				}
+			}
+			if n != 1 {
+				fd = nil
+			}
+		}
+		if fd != nil {
+			c.expr(v.X)
+		}
 	}
+	if fd == nil {
+		return false
+	}
+	name := fd.Name.Name
+	if r := recvType(fd); r != "" {
+		name = r + "." + name
+	}
+	called[name] = true
+	if c.depth > 10 {
+		c.unknown("call depth exceeded at "+name, e.Pos())
+		return true
+	}
+	var ak []kind
+	for _, p := range fd.Type.Params.List {
+		for range p.Names {
+			ak = append(ak, pk)
+		}
+	}
+	saved := c.held
+	analyzeFunc(fd, c.held, ak, c.entry, c.depth+1, c.record)
+	c.held = saved
+	return true
 }
 
 func (c *ctx) funcLit(fl *ast.FuncLit, paramKind kind, held int) {
@@ -388,6 +458,9 @@ func (c *ctx) expr(e ast.Expr) {
 			c.coreLiteral(x)
 		}
 	case *ast.FuncLit:
+		if c.kind(x) == kReleaser {
+			return
+		}
 		// a function value that is not called on the spot may run at any time
 		c.funcLit(x, kOther, 0)
 	case *ast.CallExpr:
@@ -400,10 +473,17 @@ func (c *ctx) callExpr(x *ast.CallExpr) {
 		c.applyMutex(op, x.Pos())
 		return
 	}
+	if c.kind(x.Fun) == kReleaser {
+		c.expr(x.Fun) // `unlock()`, `mc.locked()()`: evaluate the function expression (it may take the lock), then release
+		c.applyMutex("Unlock", x.Pos())
+		return
+	}
 	args := func(pk kind) {
 		for _, a := range x.Args {
 			if fl, ok := a.(*ast.FuncLit); ok {
 				c.funcLit(fl, pk, c.held) // a callback runs during the call
+			} else if _, isCall := a.(*ast.CallExpr); !isCall && c.kind(a) != kReleaser && c.callValue(a, pk) {
+				// a function / method value of the package: analysed as a callee running now
 			} else {
 				c.expr(a)
 			}
@@ -603,6 +683,11 @@ func (c *ctx) stmt(s ast.Stmt) {
 					return
 				}
 			}
+		}
+		if c.kind(x.Call.Fun) == kReleaser {
+			c.expr(x.Call.Fun) // `defer mc.locked()()` takes the lock now and releases it at the end; `defer unlock()`
+			c.defers = c.held
+			return
 		}
 		c.expr(x.Call) // any other deferred call: analysed in the lock state of the defer statement
 	case *ast.GoStmt:
@@ -848,6 +933,43 @@ func main() {
 					}
 				}
 			}
+		}
+	}
+	// functions that return a releaser: some `return X.Unlock` / `return X.RUnlock` / `return func() { X.Unlock() }`
+	for _, f := range files {
+		for _, d := range f.Decls {
+			fd, ok := d.(*ast.FuncDecl)
+			if !ok || fd.Body == nil {
+				continue
+			}
+			name := fd.Name.Name
+			if r := recvType(fd); r != "" {
+				name = r + "." + name
+			}
+			ast.Inspect(fd.Body, func(n ast.Node) bool {
+				if _, ok := n.(*ast.FuncLit); ok {
+					return false
+				}
+				if rs, ok := n.(*ast.ReturnStmt); ok && len(rs.Results) == 1 {
+					switch v := rs.Results[0].(type) {
+					case *ast.SelectorExpr:
+						if v.Sel.Name == "Unlock" || v.Sel.Name == "RUnlock" {
+							releasers[name] = true
+						}
+					case *ast.FuncLit:
+						if len(v.Body.List) == 1 {
+							if es, ok := v.Body.List[0].(*ast.ExprStmt); ok {
+								if call, ok := es.X.(*ast.CallExpr); ok {
+									if sel, ok := call.Fun.(*ast.SelectorExpr); ok && (sel.Sel.Name == "Unlock" || sel.Sel.Name == "RUnlock") {
+										releasers[name] = true
+									}
+								}
+							}
+						}
+					}
+				}
+				return true
+			})
 		}
 	}
 	// 2. which functions are called inside the package (silent pass), then the entry points: exported ones and
